@@ -112,5 +112,175 @@ C10(T) ==
                    \/ e.pre.nready # e.post.nready + Len(e.out)
                    \/ (e.side = "D" /\ ToSet(e.fs) # ToSet(FsBefore(T, i))) } }
 
-Violations(T) == C01(T) \cup C02(T) \cup C03(T) \cup C10(T)
+\* ===== source-side streams =====
+\* the source file as it is on disk when event i happens (the C09 driver lets it grow mid-transfer)
+CurFile(T, i) == LET ch == { j \in 1..(i - 1) : T.ev[j].side = "S" /\ T.ev[j].call = "env" } IN
+                 IF ch = {} THEN T.cfg.file ELSE T.ev[LastIdx(ch)].arg.data
+Slice(f, off, n) == SubSeq(f, off + 1, PMin(off + n, Len(f)))
+\* all PDUs the source emitted, as [i (event), p (PDU)], in order
+SrcOut(T) == FoldLeft(LAMBDA acc, i : IF T.ev[i].side = "S" /\ T.ev[i].call # "env"
+                                       THEN acc \o [k \in DOMAIN T.ev[i].out |-> [i |-> i, p |-> T.ev[i].out[k]]] ELSE acc,
+                      <<>>, [i \in DOMAIN T.ev |-> i])
+SeqNums(T) == { x.p.h.qv : x \in ToSet(SrcOut(T)) }
+StreamOf(T, qv) == SelectSeq(SrcOut(T), LAMBDA x : x.p.h.qv = qv)
+\* the accepted put request that opened the transaction whose first PDU was emitted at event i
+PutBefore(T, i) == LET ps == { j \in 1..i : T.ev[j].side = "S" /\ T.ev[j].call = "put" /\ T.ev[j].ret = "true" } IN T.ev[LastIdx(ps)].arg
+ReqMode(T, r) == IF r.mode = "none" THEN T.cfg.mode ELSE r.mode
+ReqClosure(T, r) == IF r.closure = "none" THEN T.cfg.closure ELSE r.closure = "true"
+EffSeg(T, h) == LET d == MaxSegLen(h, T.cfg.maxPkt) IN IF T.cfg.segLen # 0 /\ T.cfg.segLen < d THEN T.cfg.segLen ELSE d
+PredLen(p) == CASE p.t = "FD" -> LenFD(p.h, Len(p.data))
+                [] p.t = "EOF" -> LenEOF(p.h, IF p.floc.set THEN Len(p.floc.v) ELSE -1)
+                [] p.t = "ACK" -> LenACK(p.h)
+                [] p.t = "MD" -> LenMD0(p.h, p.opts)
+                [] p.t = "NAK" -> LenNAK(p.h, Len(p.reqs))
+                [] p.t = "FIN" -> LenFIN(p.h, IF p.floc.set THEN Len(p.floc.v) ELSE -1)
+                [] OTHER -> p.plen
+
+\* ===== C07: the source emits a conformant, complete and size-bounded PDU stream (no inbound PDUs before the EOF) =====
+\* st: the PDUs of one transaction, r: its request, f: the file
+C07Stream(T, st, r, f) ==
+  LET n == Len(st)
+      h1 == st[1].p.h
+      fds == { k \in 1..n : st[k].p.t = "FD" }
+      eofs == { k \in 1..n : st[k].p.t = "EOF" }
+      size == IF r.mdOnly THEN 0 ELSE Len(f)
+      bad(c, k) == {<<c, st[k].i>>}
+  IN
+  (IF st[1].p.t # "MD" THEN bad("first-pdu-not-metadata", 1)
+   ELSE LET m == st[1].p IN
+        IF r.mdOnly THEN (IF m.srcName # "none" \/ m.dstName # "none" \/ m.closure # ReqClosure(T, r) THEN bad("metadata-fields", 1) ELSE {})
+        ELSE IF m.size # size \/ m.srcName # r.srcName \/ m.dstName # r.dstName \/ m.chkType # T.cfg.chk
+                \/ m.closure # ReqClosure(T, r) THEN bad("metadata-fields", 1) ELSE {})
+  \cup UNION { (IF st[k].p.h.sv # h1.sv \/ st[k].p.h.dv # h1.dv \/ st[k].p.h.qv # h1.qv \/ st[k].p.h.qw # h1.qw
+                   \/ st[k].p.h.sw # st[k].p.h.dw \/ st[k].p.h.sw # h1.sw \/ st[k].p.h.mode # ReqMode(T, r)
+                   \/ st[k].p.h.crc # T.cfg.crc \/ st[k].p.h.dir # "TR" \/ st[k].p.h.lf
+                THEN bad("header-fields", k) ELSE {})
+               \cup (IF st[k].p.rt # "ok" THEN bad("not-parsable", k) ELSE {})
+               \cup (IF st[k].p.plen # PredLen(st[k].p) THEN bad("encoded-length-differs-from-the-blue-book-layout", k) ELSE {})
+               \cup (IF st[k].p.t \in {"FD", "EOF", "ACK"} /\ st[k].p.plen > T.cfg.maxPkt THEN bad("exceeds-max-packet-length", k) ELSE {})
+               : k \in 1..n }
+  \* File Data: consecutive from 0, non-empty, within the segment length, the file's bytes, one per call
+  \cup UNION { LET p == st[k].p
+                   prev == { j \in fds : j < k }
+                   exp == IF prev = {} THEN 0 ELSE st[LastIdx(prev)].p.off + Len(st[LastIdx(prev)].p.data) IN
+               (IF p.off # exp THEN bad("file-data-not-consecutive", k) ELSE {})
+               \cup (IF Len(p.data) = 0 \/ Len(p.data) > EffSeg(T, p.h) THEN bad("file-data-length", k) ELSE {})
+               \cup (IF p.data # Slice(f, p.off, Len(p.data)) \/ p.off + Len(p.data) > size THEN bad("file-data-content", k) ELSE {})
+               \cup (IF \E j \in fds : j # k /\ st[j].i = st[k].i THEN bad("more-than-one-file-data-pdu-per-call", k) ELSE {})
+               : k \in fds }
+  \* EOF: after all the file data, size and checksum of the file
+  \cup UNION { LET p == st[k].p
+                   covered == IF fds = {} THEN 0 ELSE st[LastIdx(fds)].p.off + Len(st[LastIdx(fds)].p.data) IN
+               (IF \E j \in fds : j > k THEN bad("file-data-after-eof", k) ELSE {})
+               \cup (IF p.cond = "NO_ERROR" /\ (p.size # size \/ covered # size) THEN bad("eof-size-or-coverage", k) ELSE {})
+               \cup (IF p.cond = "NO_ERROR" /\ p.chk # FileChecksum(IF r.mdOnly THEN "NULL" ELSE T.cfg.chk, f, size)
+                     THEN bad("eof-checksum", k) ELSE {})
+               : k \in eofs }
+C07(T) ==
+  IF ~Has(T, "C07") THEN {} ELSE
+  UNION { LET st == StreamOf(T, qv)
+              r == PutBefore(T, st[1].i) IN
+          { V("C07", x[1], x[2], Kf(T), "", "") : x \in C07Stream(T, st, r, CurFile(T, st[1].i)) }
+          : qv \in SeqNums(T) }
+  \* a completed fault-free transfer did emit its EOF (unless metadata only)
+  \cup { V("C07", "no-eof-emitted", Len(T.ev), Kf(T), "", "") :
+         qv \in { q \in SeqNums(T) : Has(T, "C02") /\ ~PutBefore(T, StreamOf(T, q)[1].i).mdOnly
+                                     /\ ~\E x \in ToSet(StreamOf(T, q)) : x.p.t = "EOF" } }
+
+\* ===== C08: retransmissions deliver exactly the requested data and nothing else =====
+\* walk the re-sent PDUs of one NAK-carrying call against its requests: state = <<request index, position, ok>>
+InvalidReq(r, sent) == r[2] < r[1] \/ r[1] > sent \/ r[2] > sent
+C08Walk(reqs, pdus, f, seg, sent) ==
+  LET skip(st) == \* skip requests that need nothing (zero length, not the metadata request)
+        LET RECURSIVE sk(_) sk(x) == IF x[1] <= Len(reqs) /\ reqs[x[1]] # <<0, 0>> /\ reqs[x[1]][1] = reqs[x[1]][2]
+                                      THEN sk(<<x[1] + 1, IF x[1] + 1 <= Len(reqs) THEN reqs[x[1] + 1][1] ELSE 0, x[3]>>) ELSE x
+        IN sk(st)
+      next(k) == <<k + 1, IF k + 1 <= Len(reqs) THEN reqs[k + 1][1] ELSE 0, TRUE>>
+      step(st0, p) ==
+        LET st == skip(st0) IN
+        IF ~st[3] THEN st
+        ELSE IF st[1] > Len(reqs) THEN
+             \* everything served: one original File Data PDU at the current send offset is tolerated
+             (IF p.t = "FD" /\ p.off = sent /\ st[2] # -1 THEN <<st[1], -1, TRUE>> ELSE <<st[1], st[2], FALSE>>)
+        ELSE LET r == reqs[st[1]] IN
+             IF p.t = "MD" THEN (IF r = <<0, 0>> THEN skip(next(st[1])) ELSE <<st[1], st[2], FALSE>>)
+             ELSE IF r = <<0, 0>> THEN <<st[1], st[2], FALSE>>
+             ELSE IF p.off = st[2] /\ Len(p.data) >= 1 /\ Len(p.data) <= seg /\ p.off + Len(p.data) <= r[2]
+                     /\ p.data = Slice(f, p.off, Len(p.data))
+                  THEN (IF p.off + Len(p.data) = r[2] THEN skip(next(st[1])) ELSE <<st[1], p.off + Len(p.data), TRUE>>)
+                  ELSE <<st[1], st[2], FALSE>>
+      fin == FoldLeft(step, skip(<<1, IF Len(reqs) >= 1 THEN reqs[1][1] ELSE 0, TRUE>>), pdus)
+  IN fin[3] /\ skip(fin)[1] > Len(reqs)
+C08(T) ==
+  IF ~Has(T, "C08") THEN {} ELSE
+  UNION { LET e == T.ev[i]
+              f == CurFile(T, i)
+              sent == e.pre.progress
+              resent == SelectSeq(e.out, LAMBDA p : p.t \in {"MD", "FD"})
+              anyInvalid == \E k \in DOMAIN e.arg.reqs : e.arg.reqs[k] # <<0, 0>> /\ InvalidReq(e.arg.reqs[k], sent) IN
+          IF e.exc = "none" THEN
+             (IF anyInvalid THEN {V("C08", "invalid-request-not-rejected", i, Kf(T), "", "")} ELSE {})
+             \cup (IF ~anyInvalid /\ resent # <<>> /\ ~C08Walk(e.arg.reqs, resent, f, EffSeg(T, resent[1].h), sent)
+                   THEN {V("C08", "resent-pdus-do-not-tile-the-requests", i, Kf(T), "", "")} ELSE {})
+             \cup (IF ~anyInvalid /\ resent = <<>> /\ \E k \in DOMAIN e.arg.reqs : e.arg.reqs[k] = <<0, 0>> \/ e.arg.reqs[k][1] < e.arg.reqs[k][2]
+                   THEN {V("C08", "request-not-served", i, Kf(T), "", "")} ELSE {})
+          ELSE IF e.exc = "InvalidNakPdu" THEN
+             { V("C08", "file-data-outside-the-file", i, Kf(T), "", "") :
+               k \in { k \in DOMAIN e.out : e.out[k].t = "FD" /\ (Len(e.out[k].data) = 0 \/ e.out[k].off + Len(e.out[k].data) > Len(f)) } }
+          ELSE {}
+          : i \in { i \in OfSide(T, "S") : /\ T.ev[i].call = "fsm" /\ T.ev[i].arg.t = "NAK" /\ T.ev[i].arg.h.mode = "ACK"
+                                           /\ T.ev[i].exc \in {"none", "InvalidNakPdu"} /\ T.ev[i].pre.state = "BUSY"
+                                           /\ T.ev[i].pre.step \in {"SENDING_FILE_DATA", "WAITING_FOR_EOF_ACK", "WAITING_FOR_FINISHED"} } }
+  \* resumption: the original File Data PDUs (emitted by calls without a NAK) are consecutive from 0, none skipped or repeated
+  \cup UNION { LET st == StreamOf(T, qv)
+                   orig == SelectSeq(st, LAMBDA x : x.p.t = "FD" /\ T.ev[x.i].arg.t # "NAK") IN
+               { V("C08", "original-file-data-skipped-or-repeated", orig[k].i, Kf(T), "", "") :
+                 k \in { k \in DOMAIN orig : orig[k].p.off # (IF k = 1 THEN 0 ELSE orig[k - 1].p.off + Len(orig[k - 1].p.data)) } }
+               \cup { V("C08", "eof-changed-by-retransmission", st[k].i, Kf(T), "", "") :
+                      k \in { k \in DOMAIN st : /\ st[k].p.t = "EOF" /\ st[k].p.cond = "NO_ERROR"
+                                                /\ st[1].p.t = "MD"
+                                                /\ LET f == CurFile(T, st[k].i)  size == st[1].p.size IN
+                                                   \/ st[k].p.size # size
+                                                   \/ /\ (T.cfg.chk # "MODULAR" \/ Len(f) = size)   \* modular: whole file only (F17)
+                                                      /\ st[k].p.chk # FileChecksum(T.cfg.chk, f, size) } }
+               : qv \in SeqNums(T) }
+
+\* ===== C19: put requests are admitted, parameterised and identified correctly =====
+SeqModT(T) == IF T.cfg.seqW = 1 THEN 256 ELSE IF T.cfg.seqW = 2 THEN 65536 ELSE 2147483647
+C19(T) ==
+  IF ~Has(T, "C19") THEN {} ELSE
+  LET puts == { i \in OfSide(T, "S") : T.ev[i].call = "put" }
+      trans == SelectSeq(IndsOf(T, "S"), LAMBDA x : x.k = "transaction") IN
+  { V("C19", "busy-handler-accepted-or-disturbed-by-put-request", i, Kf(T), "", "") :
+      i \in { i \in puts : T.ev[i].pre.state = "BUSY" /\ (T.ev[i].ret # "false" \/ [T.ev[i].post EXCEPT !.nready = T.ev[i].pre.nready] # T.ev[i].pre
+                                                             \/ T.ev[i].pre.nready # T.ev[i].post.nready + Len(T.ev[i].out)
+                                                             \/ T.ev[i].ind # <<>> \/ T.ev[i].exc # "none") } }
+  \cup { V("C19", "missing-source-file-not-refused", i, Kf(T), T.ev[i].exc, "") :
+      i \in { i \in puts : /\ T.ev[i].pre.state = "IDLE" /\ ~T.ev[i].arg.mdOnly /\ ~T.ev[i].arg.exists
+                           /\ (T.ev[i].exc # "SourceFileDoesNotExist" \/ T.ev[i].post.state # "IDLE") } }
+  \cup { V("C19", "unknown-destination-not-refused", i, Kf(T), T.ev[i].exc, "") :
+      i \in { i \in puts : /\ T.ev[i].pre.state = "IDLE" /\ (T.ev[i].arg.mdOnly \/ T.ev[i].arg.exists) /\ ~T.ev[i].arg.known
+                           /\ (T.ev[i].exc # "NoRemoteEntityCfgFound" \/ T.ev[i].post.state # "IDLE") } }
+  \cup { V("C19", "valid-request-on-idle-handler-not-accepted", i, Kf(T), T.ev[i].exc, T.ev[i].ret) :
+      i \in { i \in puts : /\ T.ev[i].pre.state = "IDLE" /\ T.ev[i].pre.nready = 0 /\ (T.ev[i].arg.mdOnly \/ T.ev[i].arg.exists) /\ T.ev[i].arg.known
+                           /\ (T.ev[i].ret # "true" \/ T.ev[i].exc # "none" \/ T.ev[i].post.state # "BUSY") } }
+  \* mode and closure of every PDU of the transaction: the request's value if given, else the remote configuration's
+  \cup UNION { LET st == StreamOf(T, qv)
+                   r == PutBefore(T, st[1].i) IN
+               { V("C19", "transmission-mode-not-as-requested", st[k].i, Kf(T), "", "") :
+                 k \in { k \in DOMAIN st : st[k].p.h.mode # ReqMode(T, r) } }
+               \cup { V("C19", "closure-flag-not-as-requested", st[k].i, Kf(T), "", "") :
+                      k \in { k \in DOMAIN st : st[k].p.t = "MD" /\ st[k].p.closure # ReqClosure(T, r) } }
+               \* segment length: every original File Data PDU but the last of the file has exactly the effective length
+               \cup { V("C19", "segment-length-not-min-of-configured-and-derived", st[k].i, Kf(T), "", "") :
+                      k \in { k \in DOMAIN st : /\ st[k].p.t = "FD" /\ T.ev[st[k].i].arg.t = "none"
+                                                /\ T.ev[st[k].i].pre.step \in {"SENDING_METADATA", "SENDING_FILE_DATA"}
+                                                /\ st[1].p.t = "MD"
+                                                /\ Len(st[k].p.data) # PMin(EffSeg(T, st[k].p.h), st[1].p.size - st[k].p.off) } }
+               : qv \in SeqNums(T) }
+  \* each transaction obtains the next value of the sequence-number provider
+  \cup { V("C19", "sequence-number-not-the-next-provider-value", k, Kf(T), "", "") :
+         k \in { k \in DOMAIN trans : trans[k].tid.seq # (T.cfg.seq0 + k - 1) % SeqModT(T) } }
+
+Violations(T) == C01(T) \cup C02(T) \cup C03(T) \cup C10(T) \cup C07(T) \cup C08(T) \cup C19(T)
 ====
